@@ -4,6 +4,22 @@
 
 package dns
 
+// C19: only IPv4 servers are configured for DHCPv4 (the option constructor serialises To4() of each
+// address); C17: one configured server per argument
+// (checked element by element where setup4 appends; the step to "every configured server" is assumed)
+//@ plugin-invariant[Handler4,assumed] forall i in 0..len(dnsServers4): isv4(dnsServers4[i])
+
+//@ func setup4
+//@   modifies everything
+//@   ensures[C17,C19:one-server-per-argument] ret1 == nil ==> len(dnsServers4) == old(len(dnsServers4)) + len(args)
+//@   loop 1: invariant len(dnsServers4) == old(len(dnsServers4)) + loopindex + 1
+//@   assert[C19:only-ipv4-servers-are-configured] before "append(dnsServers4, DNSServer)": isv4(DNSServer)
+
+//@ func setup6
+//@   modifies everything
+//@   ensures[C17,C19:one-server-per-argument] ret1 == nil ==> len(dnsServers6) == old(len(dnsServers6)) + len(args)
+//@   loop 1: invariant len(dnsServers6) == old(len(dnsServers6)) + loopindex + 1
+
 //@ func Handler4
 //@   implements handler.Handler4
 //@   modifies everything
